@@ -167,11 +167,36 @@ def _run_shard(args):
     return results, crashes, gen, dist
 
 
+def _json_depth(text):
+    d = m = 0
+    instr = esc = False
+    for ch in text:
+        if instr:
+            if esc:
+                esc = False
+            elif ch == "\\":
+                esc = True
+            elif ch == '"':
+                instr = False
+        elif ch == '"':
+            instr = True
+        elif ch in "[{":
+            d += 1
+            m = max(m, d)
+        elif ch in "]}":
+            d -= 1
+    return m
+
+
 def run_cases(cases, name, module="Cases", shards=None, env_extra=None):
     """Judge all cases with TLC. Returns dict(results=id->[(clause, verdict)], crashes, states, distinct, wall)."""
     t0 = time.time()
     for i, c in enumerate(cases):
         assert "id" in c and "op" in c
+    # TLC's JSON reader (Gson) refuses documents nested deeper than 255: such a case (a value generated 100+ levels deep) is set aside
+    too_deep = {c["id"] for c in cases if len(json.dumps(c)) > 3000 and _json_depth(json.dumps(c)) > 240}
+    all_cases = cases
+    cases = [c for c in cases if c["id"] not in too_deep]
     base = os.path.join(WORK, name)
     shutil.rmtree(base, ignore_errors=True)
     os.makedirs(base)
@@ -198,6 +223,9 @@ def run_cases(cases, name, module="Cases", shards=None, env_extra=None):
             crashes.extend(cr)
             gen += g
             dist += d
+    for cid in too_deep:
+        results[cid] = [("H.too_deep", "skip")]
+    cases = all_cases
     missing = [c["id"] for c in cases if c["id"] not in results]
     if missing:
         raise MachineryError("cases not judged: %s" % missing[:5])
